@@ -1154,9 +1154,34 @@ fn run_ops(ops: &[(String, Op)], cleanup: bool, out: &mut String, boxes0: isize,
                 }
             }
             let vals: Vec<usize> = w.vals.iter().map(|v| v.vid).collect();
+            // the public count API through every handle the program holds
+            let mut cs = String::new();
+            for (i, h) in w.roots.iter().enumerate() {
+                if i > 0 {
+                    cs.push(',');
+                }
+                let o = w.root_ids[i];
+                if o < w.objs.len() && w.is_live(o) {
+                    let _ = write!(cs, "{}/{}", Rc::strong_count(h), Rc::weak_count(h));
+                } else {
+                    cs.push('x');
+                }
+            }
+            let mut ws = String::new();
+            for (i, h) in w.wroots.iter().enumerate() {
+                if i > 0 {
+                    ws.push(',');
+                }
+                let o = w.wroot_ids[i];
+                if o < w.objs.len() && !w.objs[o].freed {
+                    let _ = write!(ws, "{}/{}", h.strong_count(), h.weak_count());
+                } else {
+                    ws.push('x');
+                }
+            }
             let _ = writeln!(
                 out,
-                "obs D={} Dseq={} F={} R={} P={} T={}/{}/{} Ts=? E={} roots={} wroots={} vals={} raws={} heap={}",
+                "obs D={} Dseq={} F={} R={} P={} T={}/{}/{} Ts=? E={} roots={} wroots={} vals={} raws={} C={} W={} heap={}",
                 join(&sorted(&w.dseq)),
                 join(&w.dseq),
                 join(&sorted(&freed)),
@@ -1170,6 +1195,8 @@ fn run_ops(ops: &[(String, Op)], cleanup: bool, out: &mut String, boxes0: isize,
                 join(&w.wroot_ids),
                 join(&vals),
                 join(&w.raw_ids),
+                cs,
+                ws,
                 heap
             );
             if HAS_HOOKS {
